@@ -409,6 +409,11 @@ func (l *List) ToDynamoDB() types.Item {
 	attr := types.Item{L: []*types.Item{}}
 
 	for _, v := range l.Value {
+		if v == nil {
+			// an element removed earlier in the same update expression
+			continue
+		}
+
 		value := v.ToDynamoDB()
 		attr.L = append(attr.L, &value)
 	}
